@@ -55,6 +55,10 @@ func ErrMismatchedProposals() lib.ErrorI {
 	return lib.NewError(lib.CodeMismatchProposals, lib.ConsensusModule, "mismatch proposals")
 }
 
+func ErrWrongCertificateRound() lib.ErrorI {
+	return lib.NewError(lib.CodeWrongPhase, lib.ConsensusModule, "certificate round differs from the round of the leader message")
+}
+
 func ErrFailedSafeNodePredicate() lib.ErrorI {
 	return lib.NewError(lib.CodeFailedSafeNode, lib.ConsensusModule, "safe node failed")
 }
